@@ -693,3 +693,57 @@ def check_count_signs(ctx, F, rule="E-FREELIST.countsign"):
            "garbage collection is armed at the wrong time" % "; ".join("%s: %s %s" % b for b in bad[:3]) if bad else
            "unexpected number of updates (%d, %d subtractions)" % (len(ups), nsub))
     return len(ups)
+
+
+def check_store_binding(ctx, F, rule="E-FREELIST.binding"):
+    """The thread-local slot state (`LOCAL_STORE_STATE`) belongs to one store at a time (`current_store`).  `add_node` and
+    `free_slot` may touch its free list / chunk cursor / count delta only when it is bound to *this* store: in every
+    function that compares `current_store.get()` with `addr(self)`, the reads and writes of the other thread-local
+    cells are not confined to the `differs` edge (a flipped comparison would use another store's free slots)."""
+    n = 0
+    for fid, m in sorted(F.mir.items()):
+        if not fid.startswith("oxidd_manager_index::manager::"):
+            continue
+        B = cfg.Body(m)
+        blocks = m["blocks"]
+        tests = []
+        for i in sorted(B.reach):
+            b = blocks[i]
+            if b["c"]:
+                continue
+            for s in b["s"]:
+                rv = s.get("rv") or {}
+                if rv.get("k") == "bin" and rv.get("o") in ("Eq", "Ne") and isinstance(s.get("lhs"), int):
+                    both = origins(B, m, [rv.get("a")]) + origins(B, m, [rv.get("b")])
+                    cs = any(o[0] == "call" and (cfg.callee_name(o[1]) or "").endswith("Cell::<T>::get") and cell_field(B, m, o[1]) == "current_store"
+                             for o in both)
+                    ad = any(o[0] == "call" and (cfg.callee_name(o[1]) or "").endswith("::addr") for o in both)
+                    t = b["t"]
+                    if cs and ad and t["k"] == "switch" and cfg.op_place(t.get("d")) == s["lhs"]:
+                        zero = [blk for v, blk in t["t"] if str(v) == "0"]
+                        eq_e = [t.get("o")] if rv["o"] == "Eq" else zero
+                        ne_e = zero if rv["o"] == "Eq" else [t.get("o")]
+                        tests.append((i, eq_e, ne_e))
+        if not tests:
+            continue
+        ops = [i for i, t in B.calls() if re.search(r"Cell::<T>::(get|set|replace)$", cfg.callee_name(t) or "")
+               and cell_field(B, m, t) in ("next_free", "initialized", "node_count_delta") and not blocks[i]["c"]]
+        for sw, eq_e, ne_e in tests:
+            re_, rn = set(), set()
+            for x in eq_e:
+                if x is not None:
+                    re_ |= B.reachable_from(x, avoid=(sw,))
+            for x in ne_e:
+                if x is not None:
+                    rn |= B.reachable_from(x, avoid=(sw,))
+            only_ne = [i for i in ops if i in rn and i not in re_]
+            only_eq = [i for i in ops if i in re_ and i not in rn]
+            n += 1
+            ok = not only_ne and bool(only_eq)
+            ctx.ob(rule, "%s:%s" % (rule, re.sub(r"\{closure#\d+\}", "{closure}", F.nice(fid))[-80:]), ok,
+                   "%s (%s): %s" % (F.nice(fid), F.where(fid),
+                                    "the thread-local free list / cursor / delta are used on the `bound to this store` edge" if ok else
+                                    "thread-local slot state is read or written only when `current_store` is NOT this store (%d "
+                                    "operation(s)): another store's free slots would be used" % len(only_ne) if only_ne else
+                                    "no thread-local operation on the `bound to this store` edge"))
+    return n
